@@ -24,7 +24,7 @@ ASSUMPTIONS = [
     "float comparison: relative 1e-9",
 ]
 MINIMUM = {"C07.checked": 5000, "C07.embedding_checked": 1000}
-BUDGET_S = {"quick": 600, "thorough": 900}
+BUDGET_S = {"quick": 1200, "thorough": 900}
 
 TINY = {"m1x5": ((1, 5), 1, 1), "m5": ((5,), 1, 1), "m2x3": ((2, 3), 1, 1), "m2x2x2": ((2, 2, 2), 13, 1), "m3x3": ((3, 3), 53, 1)}
 EXHAUSTIVE = {"quick": False, "thorough": True}
